@@ -196,6 +196,10 @@ func buildC13(c c13Case) (*astisub.Subtitles, string) {
 		ln := astisub.Line{VoiceName: "v"}
 		for _, r := range cu.Runs {
 			li := astisub.LineItem{Text: r.Text, InlineStyle: &astisub.StyleAttributes{SRTBold: true}}
+			if len(cu.Runs)%2 == 1 {
+				// an inline timestamp (WebVTT): timing, not styling
+				li.StartAt = time.Duration(cu.Start)*time.Millisecond + 250*time.Millisecond
+			}
 			if len(cu.Runs)%2 == 0 {
 				// what a teletext or teletext-mode STL reader leaves on a run
 				two, t := 2, true
@@ -307,6 +311,8 @@ type cueProj struct {
 	S, E  time.Duration
 	Text  string
 	Voice string
+	// Runs: the inline timestamps of the runs (timing, too)
+	Runs []time.Duration
 }
 
 func projCues(s *astisub.Subtitles) []cueProj {
@@ -318,6 +324,11 @@ func projCues(s *astisub.Subtitles) []cueProj {
 			ls = append(ls, l.String())
 			if l.VoiceName != "" {
 				p.Voice = l.VoiceName
+			}
+			for _, li := range l.Items {
+				if li.StartAt != 0 {
+					p.Runs = append(p.Runs, li.StartAt)
+				}
 			}
 		}
 		p.Text = strings.Join(ls, "|")
